@@ -497,7 +497,7 @@ def gen_members(rng, maxn):
             ms.append([None, rng.choice(UNNAMED_OK)])
         else:
             k = rng.choice([k for k in KINDS if k not in ("const", "padding")])
-            ms.append(["m%d" % i, k])
+            ms.append([("_m%d" if rng.random() < 0.15 else "m%d") % i, k])        # (member names may start with an underscore)
     if not any(n for n, _ in ms):
         ms[0][0] = "m0"
     return ms
